@@ -1002,12 +1002,36 @@ fn run<Q: Queue>(c: &HugeCase) -> R {
     // retain, clear + refill, clone
     {
         let ln = q.len();
+        // a predicate with a memory: it logs what it is shown and keeps two calls out of three, so an
+        // implementation that asks twice (a look-ahead pass, a retry) gets other answers the second time
+        let mut shown: Vec<(u32, i64)> = Vec::with_capacity(ln);
         cstart();
-        q.retain(|k, _| k.id % 3 != 0);
+        if c.seed % 2 == 0 {
+            q.retain(|k, p| {
+                shown.push((k.id, p.v));
+                shown.len() % 3 != 0
+            });
+        } else {
+            q.retain_mut(|k, p| {
+                shown.push((k.id, p.v));
+                shown.len() % 3 != 0
+            });
+        }
         cend::<Q>("retain", ln, CK::Linear(ln))?;
-        let gone: Vec<u32> = m.by_id.keys().copied().filter(|id| id % 3 == 0).collect();
-        for id in gone {
-            m.remove(id);
+        if shown.len() != ln {
+            return Err((Group::Pred, "retain", format!("retain / retain_mut on {} elements called the predicate {} times (exactly once per element)", ln, shown.len())));
+        }
+        let mut seen = std::collections::HashSet::with_capacity(ln);
+        for (j, &(id, p)) in shown.iter().enumerate() {
+            if !seen.insert(id) {
+                return Err((Group::Pred, "retain", format!("retain / retain_mut showed item {} to the predicate twice", id)));
+            }
+            if m.by_id.get(&id) != Some(&p) {
+                return Err((Group::Pred, "retain", format!("retain / retain_mut showed ({},{}) but the stored priority is {:?}", id, p, m.by_id.get(&id))));
+            }
+            if (j + 1) % 3 == 0 {
+                m.remove(id);
+            }
         }
         verify(&q, &m, "retain", &mut st)?;
         cstart();
